@@ -444,7 +444,7 @@ class SubsampledArray(CompressedArray):
             for identity, tp in dependent_tie_points.items():
                 tp = tp.data
                 tp_dims = dependent_tie_point_dimensions[identity]
-                if sorted(tp_dims) == dims:
+                if list(tp_dims) == dims:
                     # The dependent tie point dimensions are already
                     # in the correct order
                     tp = tp.copy()
@@ -555,7 +555,7 @@ class SubsampledArray(CompressedArray):
             for term, parameter in parameters.items():
                 parameter = parameter.data
                 parameter_dims = parameter_dimensions[term]
-                if sorted(parameter_dims) == dims:
+                if list(parameter_dims) == dims:
                     # The interpolation parameter dimensions are
                     # already in the correct order
                     parameter = parameter.copy()
